@@ -175,9 +175,28 @@ func executeCtx(t *testing.T, prop string, seed uint64, p *CtxPlan) *core.Result
 				end := time.Duration(p.EndUs) * time.Microsecond
 				var ctx context.Context
 				var cancel context.CancelFunc
-				if p.EndKind == "timeout" {
+				switch p.EndKind {
+				case "timeout":
 					ctx, cancel = context.WithTimeout(context.Background(), end)
-				} else {
+				case "cancel-under-deadline":
+					// a deadline far away and a cancellation long before it (a child of
+					// a context with a deadline, a request that is given up)
+					ctx, cancel = context.WithTimeout(context.Background(), end+time.Hour)
+					time.AfterFunc(end, cancel)
+				case "pre":
+					// the context is over before the call
+					end = 0
+					ctx, cancel = context.WithCancel(context.Background())
+					cancel()
+					if p.SlowDeadline > 0 {
+						// ... and whoever touches the deadlines is slow to take effect
+						fc.DeadlineHook = func(time.Time) {
+							for i := 0; i < p.SlowDeadline; i++ {
+								runtime.Gosched()
+							}
+						}
+					}
+				default:
 					ctx, cancel = context.WithCancel(context.Background())
 					time.AfterFunc(end, cancel)
 				}
@@ -547,7 +566,11 @@ func genC10(seed uint64, idx int) *Plan {
 		c.Blocked = true
 		c.BlockedBytes = r.IntN(400)
 		c.EndUs = 1 + r.IntN(5000000)
-		c.EndKind = []string{"cancel", "timeout"}[r.IntN(2)]
+		c.EndKind = []string{"cancel", "timeout", "cancel-under-deadline", "pre"}[r.IntN(4)]
+		if c.EndKind == "pre" {
+			c.SlowDeadline = []int{0, 3, 50}[r.IntN(3)]
+			c.Reps = 12
+		}
 		c.ZeroWindow = r.IntN(2) == 0
 		c.Malformed = c.ZeroWindow && r.IntN(2) == 0
 		c.Reps = 4
